@@ -1,6 +1,7 @@
 # C05: the metadynamics bias is the sum of the hills deposited on schedule.
 # Tie: c05sim (engine simulator + dump of the private state of colvarbias_meta, built from VERIF_REPO)
-# against the extracted MetaModel, on generated histories of exact distanceZ variables.
+# against the extracted MetaModel, on generated histories of exact distanceZ variables (with grids) and of
+# distanceVec / distanceDir variables (without grids).
 # Oracle: independent python re-summation of analytic hills deposited on the documented schedule.
 import os, sys, json, math, re
 from fractions import Fraction as Fr
@@ -11,6 +12,9 @@ EXTRACT = "coq/C05/Extract_C05.v"
 DRIVER = "props/C05/driver.ml"
 PROGS = {"c05sim": ["props/C05/unit.cpp"]}
 KB = 0.001987191
+NCOMP = {0: 1, 1: 3, 2: 3, 3: 4}
+NATOMS = {0: 1, 1: 2, 2: 2, 3: 4}
+QREF = [(1.0, 0.0, 0.0), (0.0, 1.0, 0.0), (0.0, 0.0, 1.0), (-1.0, -1.0, -1.0)]
 
 
 def ffloor(q):
@@ -18,6 +22,10 @@ def ffloor(q):
 
 
 def close(a, b, tol=1e-9):
+    if a == b:
+        return True
+    if a != a or b != b or abs(a) == float("inf") or abs(b) == float("inf"):
+        return False
     return abs(a - b) <= tol * max(1.0, abs(a), abs(b))
 
 
@@ -30,25 +38,33 @@ def wrap_exact(x, c, P):
 def gen_scn(r, k, forced=None):
     f = forced or {}
     nd = f.get("nd", r.choice([1, 1, 1, 2, 2, 3]))
-    use_grids = f.get("use_grids", r.random() < 0.85)
-    sig_mode = f.get("sig_mode", r.random() < 0.2)       # gaussianSigmas instead of hillWidth
+    use_grids = f.get("use_grids", r.random() < 0.8)
+    sig_mode = f.get("sig_mode", r.random() < 0.25)       # gaussianSigmas instead of hillWidth
     hw = f.get("hw", r.choice([1.0, 1.0, 1.5, 1.75, 2.0, 2.0, 2.5, 3.0]))
     vars_ = []
     for d in range(nd):
-        v = {}
+        v = {"kind": 0}
+        if not use_grids and r.random() < f.get("p_vector", 0.5):
+            v["kind"] = r.choice([1, 2, 3])
         v["w"] = r.choice([1.0, 0.5, 0.25, 2.0])
         v["nx"] = r.randint(3, 6) if nd == 3 else r.randint(4, 12)
-        v["periodic"] = f.get("periodic", r.random() < 0.3)
+        v["periodic"] = v["kind"] == 0 and f.get("periodic", r.random() < 0.3)
         v["gper"] = False
         v["expand"] = False
         v["hlo"] = v["hup"] = False
         if v["periodic"]:
-            if r.random() < 0.75:     # the grid spans the period and is aligned with the wrapping interval
+            m = r.random()
+            if m < 0.5:       # the grid spans the period and is aligned with the wrapping interval
                 v["P"] = v["w"] * v["nx"]
                 v["c"] = V.dyadic(r, -3, 3, bits=2)
                 v["lower"] = v["c"] - v["P"] / 2
                 v["gper"] = True
-            else:                     # the grid covers a part of the period: a non-periodic grid on a periodic variable
+            elif m < 0.75:    # the grid spans the period but starts elsewhere than the wrapping interval
+                v["P"] = v["w"] * v["nx"]
+                v["c"] = V.dyadic(r, -3, 3, bits=2)
+                v["lower"] = v["c"] - v["P"] / 2 + r.randint(-v["nx"], v["nx"]) * v["w"] / 2
+                v["gper"] = True
+            else:             # the grid covers a part of the period: a non-periodic grid on a periodic variable
                 v["P"] = v["w"] * (v["nx"] + 2 * r.randint(3, 8))
                 v["c"] = V.dyadic(r, -3, 3, bits=2)
                 v["lower"] = v["c"] - v["w"] * v["nx"] / 2
@@ -61,24 +77,104 @@ def gen_scn(r, k, forced=None):
                 v["hlo"] = True
             elif m < 0.2:
                 v["hup"] = True
+        if v["kind"] != 0:
+            v["w"] = r.choice([1.0, 0.5, 2.0])
+            v["hlo"] = v["hup"] = False
         v["upper"] = v["lower"] + v["w"] * v["nx"]
         v["sigma"] = v["w"] * r.choice([0.5, 1.0, 1.5]) if sig_mode else v["w"] * hw / 2.0
         vars_.append(v)
     c = {"id": k, "vars": vars_, "use_grids": use_grids, "sig_mode": sig_mode, "hw": 0.0 if sig_mode else hw,
          "W": r.choice([0.125, 0.5, 1.0]), "freq": f.get("freq", r.choice([1, 1, 2, 2, 3, 4])),
-         "keep": r.random() < 0.5, "wt": f.get("wt", r.random() < 0.35), "bt": r.choice([300.0, 1000.0, 3000.0]),
+         "keep": r.random() < 0.5, "wt": f.get("wt", r.random() < 0.4), "bt": r.choice([300.0, 1000.0, 3000.0]),
          "stepzero": r.random() < 0.25}
+    c["eb"] = None
+    if use_grids and not any(v["expand"] for v in vars_) and r.random() < f.get("p_eb", 0.2):
+        nt = 1
+        for v in vars_:
+            nt *= v["nx"]
+        c["eb"] = {"raw": [r.choice([0.0, 0.5, 1.0, 1.0, 2.0, 4.0, 8.0]) for _ in range(nt)], "equil": r.choice([0, 0, 3, 6, 20])}
+        if not any(c["eb"]["raw"]):
+            c["eb"]["raw"][0] = 1.0
     c["gfreq_explicit"] = use_grids and f.get("gfreq_explicit", r.random() < 0.4)
     c["gfreq"] = f.get("gfreq", r.choice([1, 2, 3, 4, 6])) if c["gfreq_explicit"] else c["freq"]
     c["it0"] = r.randint(0, 9) if r.random() < 0.3 else 0
     nsteps = r.randint(8, 30)
     p_out = f.get("p_out", r.choice([0.0, 0.1, 0.25]))
+    p_save = f.get("p_save", r.choice([0.0, 0.0, 0.08]))
+    p_restart = f.get("p_restart", r.choice([0.0, 0.0, 0.06]))
+    can_rebin = use_grids and c["keep"] and not any(v["expand"] for v in vars_) and not c["eb"]
+    can_rebin_grids = use_grids and not c["keep"] and not c["eb"]
+    rebin_on = False
     events = []
     prev = None
+    cur = [dict(lower=v["lower"], upper=v["upper"], nx=v["nx"]) for v in vars_]   # current boundaries of the configuration
     for s in range(nsteps):
+        if s > 0 and r.random() < p_restart:
+            m = r.random()
+            if m < 0.25 and not rebin_on:
+                # (an instance configured with rebinGrids rebins again, onto its configured boundaries, at every state it
+                # reads: a reload there is a second rebinning, not modelled)
+                events.append(("reload",))
+            elif can_rebin_grids and m < 0.6:
+                # rebinning from the grids of the state (no keepHills): the current grids extended by whole bins where
+                # expandBoundaries allows (40 bins: beyond any expansion these histories can reach)
+                g = []
+                for v, b in zip(vars_, cur):
+                    lo, up = b["lower"], b["upper"]
+                    if v["expand"]:
+                        lo, up = v["lower"], v["upper"]
+                        if not v["hlo"]:
+                            lo -= 40 * v["w"]
+                        if not v["hup"]:
+                            up += 40 * v["w"]
+                    nx = int(round((up - lo) / v["w"]))
+                    b.update(lower=lo, upper=up, nx=nx)
+                    g.append((nx, lo, up))
+                events.append(("rebin", g))
+                rebin_on = True
+                can_rebin_grids = False      # once: a second extension would have to know the expansions since
+            elif can_rebin and r.random() < 0.5:
+                g = []
+                for v, b in zip(vars_, cur):
+                    lo = b["lower"] + r.randint(-3, 3) * v["w"] / 2
+                    nx = b["nx"] if v["gper"] else max(3, b["nx"] + r.randint(-2, 3))
+                    if v["hlo"]:          # a boundary declared hard stays where it is
+                        lo = b["lower"]
+                    if v["hup"]:
+                        lo = b["upper"] - nx * v["w"]
+                    b.update(lower=lo, upper=lo + nx * v["w"], nx=nx)
+                    g.append((nx, lo, lo + nx * v["w"]))
+                events.append(("rebin", g))
+                rebin_on = True
+            else:
+                events.append(("restart",))
+                rebin_on = False
         zs = []
-        for d, v in enumerate(vars_):
-            span = v["w"] * v["nx"]
+        for d, v0 in enumerate(vars_):
+            v = dict(v0, **cur[d])
+            if v["kind"] == 3:
+                # positions of the four atoms of an orientation: the reference, rotated about a random axis by a
+                # dyadic-ish rotation, plus noise (the fit returns some unit quaternion)
+                if prev is not None and r.random() < 0.6:
+                    z = [p + r.randint(-2, 2) / 8.0 for p in prev[d]]
+                else:
+                    perm = r.choice([(0, 1, 2), (1, 2, 0), (2, 0, 1), (0, 2, 1), (1, 0, 2)])
+                    sg = [r.choice([-1.0, 1.0]) for _ in range(3)]
+                    z = []
+                    for a in QREF:
+                        z += [sg[k] * a[perm[k]] + r.randint(-2, 2) / 8.0 for k in range(3)]
+                zs.append(z)
+                continue
+            if v["kind"] != 0:
+                # position of the second atom (the first one sits at the origin)
+                if prev is not None and r.random() < 0.6:
+                    z = [p + r.randint(-6, 6) / 8.0 for p in prev[d]]
+                else:
+                    z = [r.randint(-24, 24) / 8.0 for _ in range(3)]
+                if all(t == 0.0 for t in z):
+                    z[0] = 1.0
+                zs.append(z)
+                continue
             m = r.random()
             if prev is not None and m < 0.45:        # stay close to the previous value (overlapping hills)
                 z = prev[d] + r.randint(-12, 12) * v["w"] / 8
@@ -96,43 +192,89 @@ def gen_scn(r, k, forced=None):
             if v["periodic"] and r.random() < 0.3:
                 z += r.randint(-2, 2) * v["P"]
             zs.append(z)
-        prev = [wrap_exact(z, v["c"], v["P"]) if v["periodic"] else z for z, v in zip(zs, vars_)]
+        if events and events[-1][0] in ("restart", "rebin", "reload"):
+            zs = last_zs         # a resumed run starts from the configuration at which the state was written
+        last_zs = zs
+        prev = [(wrap_exact(z, v["c"], v["P"]) if v["periodic"] else z) for z, v in zip(zs, vars_)]
         boundary = (s > 0) and r.random() < 0.1
-        events.append((boundary, zs))
+        if s > 0 and use_grids and r.random() < p_save:
+            events.append(("save",))
+        if events and events[-1][0] in ("restart", "rebin"):
+            boundary = False
+        if events and events[-1][0] == "reload":
+            boundary = True          # the step at which the state was written is computed again
+        events.append(("step", boundary, zs))
     c["events"] = events
     return c
 
 
+def step_events(c):
+    return [e for e in c["events"] if e[0] == "step"]
+
+
 def steps_of(c):
-    """(it, rel, cont, x) per event, as the engine simulator produces them"""
+    """(it, rel, cont, imposed positions) per step event, as the engine simulator produces them"""
     out = []
     it = c["it0"]
-    for n, (boundary, zs) in enumerate(c["events"]):
-        if n > 0 and not boundary:
+    run_start = it
+    first = True
+    for e in c["events"]:
+        if e[0] in ("restart", "rebin"):
+            run_start = it          # the fresh instance resumes at the step of the state
+            first = True
+            continue
+        if e[0] == "reload":
+            run_start = it          # the same instance: relative steps restart, the next step is not a first step
+            continue
+        if e[0] != "step":
+            continue
+        boundary, zs = e[1], e[2]
+        if first:
+            first = False
+        elif not boundary:
             it += 1
-        x = [wrap_exact(z, v["c"], v["P"]) if v["periodic"] else z for z, v in zip(zs, c["vars"])]
-        out.append((it, it - c["it0"], bool(boundary), x))
+        out.append((it, it - run_start, bool(boundary), zs))
     return out
 
 
-def scenario_text(c, dump=True):
-    L = ["natoms %d" % len(c["vars"]), "new"]
-    if c["it0"]:
-        L.append("setstep %d" % c["it0"])
-    L.append("config EOF")
+def expected_scalar(v, z):
+    return wrap_exact(z, v["c"], v["P"]) if v["periodic"] else z
+
+
+def atoms_of(c):
+    """first atom number of every variable (scalars use one atom, vectors two)"""
+    out, a = [], 1
+    for v in c["vars"]:
+        out.append(a)
+        a += NATOMS[v["kind"]]
+    return out, a - 1
+
+
+def config_text(c, geom=None, rebin=False):
+    """the Colvars configuration; geom = [(nx, lower, upper)] replaces the boundaries (restart with rebinGrids)"""
+    first, natoms = atoms_of(c)
+    L = ["config EOF"]
     for d, v in enumerate(c["vars"]):
-        L += ["colvar {", "  name v%d" % d, "  lowerBoundary %r" % v["lower"], "  upperBoundary %r" % v["upper"],
-              "  width %r" % v["w"]]
-        if v["expand"]:
-            L.append("  expandBoundaries on")
-        if v["hlo"]:
-            L.append("  hardLowerBoundary on")
-        if v["hup"]:
-            L.append("  hardUpperBoundary on")
-        L += ["  distanceZ {", "    main { atomNumbers %d }" % (d + 1), "    ref { dummyAtom (0,0,0) }", "    axis (0,0,1)"]
-        if v["periodic"]:
-            L += ["    period %r" % v["P"], "    wrapAround %r" % v["c"]]
-        L += ["  }", "}"]
+        lower, upper = (v["lower"], v["upper"]) if geom is None else (geom[d][1], geom[d][2])
+        L += ["colvar {", "  name v%d" % d, "  width %r" % v["w"]]
+        if v["kind"] == 0:
+            L += ["  lowerBoundary %r" % lower, "  upperBoundary %r" % upper]
+            if v["expand"]:
+                L.append("  expandBoundaries on")
+            if v["hlo"]:
+                L.append("  hardLowerBoundary on")
+            if v["hup"]:
+                L.append("  hardUpperBoundary on")
+            L += ["  distanceZ {", "    main { atomNumbers %d }" % first[d], "    ref { dummyAtom (0,0,0) }", "    axis (0,0,1)"]
+            if v["periodic"]:
+                L += ["    period %r" % v["P"], "    wrapAround %r" % v["c"]]
+            L += ["  }", "}"]
+        elif v["kind"] == 3:
+            L += ["  orientation {", "    atoms { atomNumbers %d %d %d %d }" % tuple(first[d] + k for k in range(4)),
+                  "    refPositions " + " ".join("(%r, %r, %r)" % a for a in QREF), "  }", "}"]
+        else:
+            L += ["  %s {" % ("distanceVec" if v["kind"] == 1 else "distanceDir"),
+                  "    group1 { atomNumbers %d }" % first[d], "    group2 { atomNumbers %d }" % (first[d] + 1), "  }", "}"]
     L += ["metadynamics {", "  name m", "  colvars " + " ".join("v%d" % d for d in range(len(c["vars"]))),
           "  hillWeight %r" % c["W"], "  newHillFrequency %d" % c["freq"], "  writeHillsTrajectory on"]
     if c["sig_mode"]:
@@ -147,14 +289,94 @@ def scenario_text(c, dump=True):
             L.append("  gridsUpdateFrequency %d" % c["gfreq"])
         if c["keep"]:
             L.append("  keepHills on")
+        if rebin:
+            L.append("  rebinGrids on")
     if c["wt"]:
         L += ["  wellTempered on", "  biasTemperature %r" % c["bt"]]
     if c["stepzero"]:
         L.append("  stepZeroData on")
+    if c.get("eb"):
+        L += ["  ebMeta on", "  targetDistFile %s" % target_file_name(c), "  ebMetaEquilSteps %d" % c["eb"]["equil"]]
     L += ["}", "EOF", "show atomf 0 energy 0 af 1 bias 1"]
-    for boundary, zs in c["events"]:
+    if c.get("eb"):
+        L.append("metatarget m")
+    return L
+
+
+def target_file_name(c):
+    return "c05_target_%s.dat" % c["id"]
+
+
+def target_file_text(c):
+    """multicolumn grid file of the raw target distribution, on the boundaries of the configuration"""
+    vs = c["vars"]
+    L = ["# %d" % len(vs)]
+    for v in vs:
+        L.append("# %r %r %d %d" % (v["lower"], v["w"], v["nx"], 1 if v["gper"] else 0))
+    idx = [[]]
+    for v in vs:
+        idx = [i + [k] for i in idx for k in range(v["nx"])]
+    for a, ix in enumerate(idx):
+        if ix[-1] == 0:
+            L.append("")
+        L.append(" " + " ".join("%r" % (v["lower"] + v["w"] * (0.5 + k)) for v, k in zip(vs, ix)) + "  %r" % c["eb"]["raw"][a])
+    return "\n".join(L) + "\n"
+
+
+def target_processed(c):
+    """the target distribution as ebMeta uses it: small values raised to 1e-6 of the maximum, normalised to integral
+    1, multiplied by the effective volume exp(entropy) (init_ebmeta_params)"""
+    d = list(c["eb"]["raw"])
+    thr = max(d) * (1 / 1000000.0)
+    d = [max(t, thr) for t in d]
+    vol = 1.0
+    for v in c["vars"]:
+        vol *= v["w"]
+    I = vol * sum(d)
+    d = [t * (1.0 / I) for t in d]
+    S = vol * sum(-1.0 * t * math.log(t) for t in d if t > 0)
+    e = math.exp(S)
+    return [t * e for t in d]
+
+
+def scenario_files(c):
+    return {target_file_name(c): target_file_text(c)} if c.get("eb") else {}
+
+
+def scenario_text(c, dump=True):
+    first, natoms = atoms_of(c)
+    L = ["natoms %d" % natoms, "nocell", "new"]
+    if c["it0"]:
+        L.append("setstep %d" % c["it0"])
+    L += config_text(c)
+    for d, v in enumerate(c["vars"]):
+        if v["kind"] in (1, 2):
+            L.append("pos %d 0 0 0" % first[d])
+    nstate = 0
+    for e in c["events"]:
+        if e[0] == "save":
+            L.append("save text c05.state")
+            continue
+        if e[0] == "reload":
+            nstate += 1
+            L += ["save text c05l%d.state" % nstate, "load c05l%d.state" % nstate]
+            continue
+        if e[0] in ("restart", "rebin"):
+            # the state is written, a fresh instance reads it (for "rebin": with new boundaries and rebinGrids on)
+            nstate += 1
+            L += ["metatraj m", "save text c05r%d.state" % nstate, "new"]
+            L += config_text(c, e[1], True) if e[0] == "rebin" else config_text(c)
+            L.append("load c05r%d.state" % nstate)
+            continue
+        boundary, zs = e[1], e[2]
         for d, z in enumerate(zs):
-            L.append("pos %d 0 0 %s" % (d + 1, V.hexf(z)))
+            if c["vars"][d]["kind"] == 0:
+                L.append("pos %d 0 0 %s" % (first[d], V.hexf(z)))
+            elif c["vars"][d]["kind"] == 3:
+                for k in range(4):
+                    L.append("pos %d %s %s %s" % (first[d] + k, V.hexf(z[3 * k]), V.hexf(z[3 * k + 1]), V.hexf(z[3 * k + 2])))
+            else:
+                L.append("pos %d %s %s %s" % (first[d] + 1, V.hexf(z[0]), V.hexf(z[1]), V.hexf(z[2])))
         if boundary:
             L.append("runboundary")
         L.append("step")
@@ -163,19 +385,42 @@ def scenario_text(c, dump=True):
     return "\n".join(L) + "\n"
 
 
-def model_case(c, dump=True):
+def model_case(c, xs, dump=True):
+    """xs: the values of the variables at every step (list of lists of component lists)"""
     p = ["META", str(len(c["vars"]))]
     for v in c["vars"]:
-        p += ["1" if v["periodic"] else "0", V.hexf(v.get("P", 1.0)), V.hexf(v["sigma"]), V.hexf(v["w"]),
+        p += [str(v["kind"]), "1" if v["periodic"] else "0", V.hexf(v.get("P", 1.0)), V.hexf(v["sigma"]), V.hexf(v["w"]),
               "1" if v["gper"] else "0", "1" if v["expand"] else "0", "1" if v["hlo"] else "0", "1" if v["hup"] else "0",
               V.hexf(v["lower"]), V.hexf(v["upper"]), str(v["nx"])]
     p += [V.hexf(c["W"]), V.hexf(c["hw"]), str(c["freq"]), str(c["gfreq"]), "1" if c["use_grids"] else "0",
           "1" if (c["keep"] and c["use_grids"]) else "0", "1" if c["wt"] else "0", V.hexf(c["bt"]), V.hexf(KB),
           "1" if c["stepzero"] else "0", "1" if dump else "0"]
+    if c.get("eb"):
+        tp = target_processed(c)
+        p += ["1", str(c["eb"]["equil"]), str(len(tp))] + [V.hexf(t) for t in tp]
+    else:
+        p += ["0", "0", "0"]
     st = steps_of(c)
-    p.append(str(len(st)))
-    for it, rel, cont, x in st:
-        p += [str(it), str(rel), "1" if cont else "0"] + [V.hexf(t) for t in x]
+    p.append(str(len(c["events"])))
+    n = 0
+    for e in c["events"]:
+        if e[0] == "save":
+            p.append("W")
+            continue
+        if e[0] == "restart":
+            p.append("R")
+            continue
+        if e[0] == "reload":
+            p.append("L")
+            continue
+        if e[0] == "rebin":
+            p.append("B")
+            for (nx, lo, up) in e[1]:
+                p += [V.hexf(lo), V.hexf(up), str(nx)]
+            continue
+        it, rel, cont, _ = st[n]
+        p += ["S", str(it), str(rel), "1" if cont else "0"] + [V.hexf(t) for xv in xs[n] for t in xv]
+        n += 1
     return " ".join(p)
 
 
@@ -187,29 +432,64 @@ def fh(t):
         return float("nan")
 
 
-def parse_hills(tokens, nd):
+def split_comps(c, flat):
+    out, a = [], 0
+    for v in c["vars"]:
+        n = NCOMP[v["kind"]]
+        out.append(flat[a:a + n])
+        a += n
+    return out
+
+
+def parse_hills(c, tokens):
+    ncomp = sum(NCOMP[v["kind"]] for v in c["vars"])
     hs = []
-    for a in range(0, len(tokens), nd + 2):
-        hs.append((int(tokens[a]), fh(tokens[a + 1]), [fh(t) for t in tokens[a + 2:a + 2 + nd]]))
+    for a in range(0, len(tokens), ncomp + 2):
+        hs.append((int(tokens[a]), fh(tokens[a + 1]), split_comps(c, [fh(t) for t in tokens[a + 2:a + 2 + ncomp]])))
     return hs
 
 
-def parse_traj(text, nd):
+def parse_traj(c, text):
     """lines of the buffered hills trajectory: step, centres, sigmas, weight (one per add_hill, in order)"""
+    ncomp = sum(NCOMP[v["kind"]] for v in c["vars"])
+    nd = len(c["vars"])
     out = []
     for line in text.split("\n"):
-        w = line.split()
-        if len(w) == 3 + 2 * nd and w[0] == "TRAJ":
-            out.append((int(w[1]), float(w[-1]), [float(t) for t in w[2:2 + nd]]))
+        w = line.replace("(", " ").replace(")", " ").replace(",", " ").split()
+        if len(w) == 3 + ncomp + nd and w[0] == "TRAJ":
+            out.append((int(w[1]), float(w[-1]), split_comps(c, [float(t) for t in w[2:2 + ncomp]])))
     return out if "TRAJEND" in text else None
 
 
-def parse_impl(text, nd):
+def last_traj_segment(c, text):
+    """the records of the last `metatraj` dump (the instance alive at the end)"""
+    segs = text.split("TRAJEND")
+    if len(segs) < 2:
+        return None
+    seg = segs[-2]
+    if "TRAJEND" in seg:
+        seg = seg[seg.rindex("TRAJEND"):]
+    r = parse_traj(c, seg + "TRAJEND")
+    # a dump begins after the previous TRAJEND: keep only the TRAJ lines that follow the last non-TRAJ output
+    lines = seg.split("\n")
+    k = len(lines)
+    while k > 0 and (lines[k - 1].startswith("TRAJ") or not lines[k - 1].strip()):
+        k -= 1
+    return parse_traj(c, "\n".join(lines[k:]) + "\nTRAJEND")
+
+
+def parse_impl(c, text):
+    nd = len(c["vars"])
     steps = []
     cur = None
+    target = []
+    c["_target_dump"] = target
     for line in text.split("\n"):
         w = line.split()
         if not w or w[0] in ("TRAJ", "TRAJEND"):
+            continue
+        if w[0] == "TARGET":
+            target.append([fh(t) for t in w[1:]])
             continue
         if w[0] == "STEP":
             cur = {"it": int(w[1]), "err": w[2] if len(w) > 2 else "", "cv": [], "af": [], "hills": [], "off": [],
@@ -218,9 +498,9 @@ def parse_impl(text, nd):
         elif cur is None:
             continue
         elif w[0] == "CV":
-            cur["cv"].append(fh(w[2]))
+            cur["cv"].append([fh(t) for t in w[2:]])
         elif w[0] == "AF":
-            cur["af"].append(fh(w[2]))
+            cur["af"].append([fh(t) for t in w[2:]])
         elif w[0] == "BIAS":
             cur["bias"] = fh(w[2])
         elif w[0] == "META":
@@ -229,14 +509,15 @@ def parse_impl(text, nd):
             else:
                 kv = dict(t.split("=") for t in w[1:])
                 cur["nhills"], cur["nnew"], cur["noff"] = int(kv["nhills"]), int(kv["nnew"]), int(kv["noff"])
+                cur["noffnew"] = int(kv.get("noffnew", 0))
         elif w[0] == "MENERGY":
             cur["E"] = fh(w[1])
         elif w[0] == "MFORCE":
-            cur["F"] = [fh(t) for t in w[1:]]
+            cur["F"] = split_comps(c, [fh(t) for t in w[1:]])
         elif w[0] == "HILL":
-            cur["hills"] += parse_hills(w[1:], nd)
+            cur["hills"] += parse_hills(c, w[1:])
         elif w[0] == "OFF":
-            cur["off"] += parse_hills(w[1:], nd)
+            cur["off"] += parse_hills(c, w[1:])
         elif w[0] == "GEOM":
             cur["geom"] = [(int(w[1 + 5 * d]), fh(w[2 + 5 * d]), fh(w[3 + 5 * d])) for d in range(nd)]
             cur["gw"] = [fh(w[4 + 5 * d]) for d in range(nd)]
@@ -248,20 +529,27 @@ def parse_impl(text, nd):
     return steps
 
 
-def parse_model(line, nd):
+def parse_model(c, line):
+    nd = len(c["vars"])
     steps = []
+    if " || T" in line:
+        line, tr = line.split(" || T", 1)
+        c["_model_traj"] = parse_hills(c, tr.split())
+    else:
+        c["_model_traj"] = None
     for rec in line.split(" | "):
         fs = [f.split() for f in rec.split(" ; ")]
         if not fs or not fs[0] or fs[0][0] != "S":
             return None
-        s = {"ub": fs[0][1] == "1", "E": fh(fs[0][2]), "F": [fh(t) for t in fs[0][3:]], "geom": None, "egrid": None, "ggrid": None}
+        s = {"E": fh(fs[0][1]), "F": split_comps(c, [fh(t) for t in fs[0][2:]]), "geom": None, "egrid": None, "ggrid": None}
         for f in fs[1:]:
             if f[0] == "H":
                 nold, nnew = int(f[1]), int(f[2])
                 s["nhills"], s["nnew"] = nold + nnew, nnew
-                s["hills"] = parse_hills(f[3:], nd)
+                s["hills"] = parse_hills(c, f[3:])
             elif f[0] == "O":
-                s["off"] = parse_hills(f[1:], nd)
+                s["noffnew"] = int(f[1])
+                s["off"] = parse_hills(c, f[2:])
                 s["noff"] = len(s["off"])
             elif f[0] == "G":
                 s["geom"] = [(int(f[1 + 3 * d]), fh(f[2 + 3 * d]), fh(f[3 + 3 * d])) for d in range(nd)]
@@ -273,28 +561,62 @@ def parse_model(line, nd):
     return steps
 
 
-def hills_close(a, b):
+def centres_same(c1, c2, exact):
+    if exact:
+        return c1 == c2
+    # hills read back from a text state file: centres are printed with 14 significant digits
+    return len(c1) == len(c2) and all(len(p) == len(q) and all(close(t, u, 1e-12) for t, u in zip(p, q)) for p, q in zip(c1, c2))
+
+
+def hills_close(a, b, exact=True):
     if len(a) != len(b):
         return False
     for (i1, w1, c1), (i2, w2, c2) in zip(a, b):
-        if i1 != i2 or c1 != c2 or not close(w1, w2):
+        if i1 != i2 or not centres_same(c1, c2, exact) or not close(w1, w2):
             return False
     return True
+
+
+def has_restart(c):
+    return any(e[0] in ("restart", "rebin", "reload") for e in c["events"])
 
 
 def vec_close(a, b):
     return a is not None and b is not None and len(a) == len(b) and all(close(p, q) for p, q in zip(a, b))
 
 
+def force_close(a, b):
+    return a is not None and b is not None and len(a) == len(b) and all(vec_close(p, q) for p, q in zip(a, b))
+
+
+def tangential(c, F, x):
+    """forces with the radial component removed for unit-vector variables: between (nearly) coincident unit vectors the
+    implemented gradient -2 theta/sin(theta) c is ill-conditioned along the vector itself (0/0 at theta = 0, where the
+    code returns 0), and that component does not act on a unit vector"""
+    out = []
+    for v, f, xv in zip(c["vars"], F, x):
+        if v["kind"] == 2 and len(f) == 3 and len(xv) == 3:
+            d = sum(a * b for a, b in zip(f, xv))
+            out.append([a - d * b for a, b in zip(f, xv)])
+        else:
+            out.append(list(f))
+    return out
+
+
 def compare_step(c, im, mo):
     """first differing component between implementation and model at one step, or None"""
     if not close(im["E"], mo["E"]):
         return "energy"
-    if not vec_close(im["F"], mo["F"]):
+    if has_restart(c):
+        # hill centres read back from a text state differ in the last digits: compare what acts on a unit vector
+        if not force_close(tangential(c, im["F"], im["cv"]), tangential(c, mo["F"], im["cv"])):
+            return "force"
+    elif not force_close(im["F"], mo["F"]):
         return "force"
-    if (im["nhills"], im["nnew"]) != (mo["nhills"], mo["nnew"]) or not hills_close(im["hills"], mo["hills"]):
+    ex = not has_restart(c)
+    if (im["nhills"], im["nnew"]) != (mo["nhills"], mo["nnew"]) or not hills_close(im["hills"], mo["hills"], ex):
         return "hills"
-    if im["noff"] != mo["noff"] or not hills_close(im["off"], mo["off"]):
+    if im["noff"] != mo["noff"] or not hills_close(im["off"], mo["off"], ex) or im["noffnew"] != mo["noffnew"]:
         return "off_grid_list"
     if c["use_grids"]:
         if im["geom"] != mo["geom"]:
@@ -315,10 +637,53 @@ def pdiff(v, x, ctr):
     return d
 
 
+def clampdot(a, b):
+    co = a[0] * b[0] + a[1] * b[1] + a[2] * b[2]
+    return co, max(-1.0, min(1.0, co))
+
+
+def dist2(v, x, ctr):
+    if v["kind"] == 0:
+        return pdiff(v, x[0], ctr[0]) ** 2
+    if v["kind"] == 1:
+        return sum((a - b) ** 2 for a, b in zip(x, ctr))
+    if v["kind"] == 3:
+        co = sum(a * b for a, b in zip(x, ctr))
+        om = math.acos(max(-1.0, min(1.0, co)))
+        return om * om if co > 0.0 else (math.pi - om) ** 2
+    th = math.acos(clampdot(x, ctr)[1])
+    return th * th
+
+
+def dgrad(v, x, ctr):
+    """derivative of dist2 with respect to x (for a unit vector: the implemented tangential form, along the centre)"""
+    if v["kind"] == 0:
+        return [2 * pdiff(v, x[0], ctr[0])]
+    if v["kind"] == 1:
+        return [2 * (a - b) for a, b in zip(x, ctr)]
+    if v["kind"] == 3:
+        co = sum(a * b for a, b in zip(x, ctr))
+        om = math.acos(max(-1.0, min(1.0, co)))
+        so = math.sin(om)
+        if abs(so) < 1e-14:
+            return [0.0] * 4
+        g = [-so * b + co * (a - co * b) / so for a, b in zip(x, ctr)]
+        f = 2.0 * om if co > 0.0 else -2.0 * (math.pi - om)
+        return [f * t for t in g]
+    co, cc = clampdot(x, ctr)
+    s2 = 1.0 - co * co
+    if co > 0.0 and s2 < 1e-28:
+        return [0.0, 0.0, 0.0]
+    if s2 <= 0.0:
+        return [float("nan")] * 3
+    k = 2.0 * math.acos(cc) * -1.0 / math.sqrt(s2)
+    return [k * t for t in ctr]
+
+
 def kern(c, x, h):
     q = 0.0
     for v, xi, ci in zip(c["vars"], x, h[2]):
-        q += pdiff(v, xi, ci) ** 2 / (v["sigma"] * v["sigma"])
+        q += dist2(v, xi, ci) / (v["sigma"] * v["sigma"])
     return 0.0 if q > 23.0 else math.exp(-0.5 * q)
 
 
@@ -328,11 +693,29 @@ def esum(c, x, hs):
 
 def fsum(c, x, hs, i):
     v = c["vars"][i]
-    return sum(h[1] * kern(c, x, h) * pdiff(v, x[i], h[2][i]) / (v["sigma"] * v["sigma"]) for h in hs)
+    out = [0.0] * NCOMP[v["kind"]]
+    for h in hs:
+        k = h[1] * kern(c, x, h)
+        if k == 0.0:
+            continue
+        g = dgrad(v, x[i], h[2][i])
+        for j in range(len(out)):
+            out[j] += k * g[j] / (2 * v["sigma"] * v["sigma"])
+    return out
 
 
 def bins_exact(c, geom, x):
-    return [ffloor((Fr(xi) - Fr(g[1])) / Fr(v["w"])) for v, g, xi in zip(c["vars"], geom, x)]
+    out = []
+    for v, g, xi in zip(c["vars"], geom, x):
+        b = ffloor((Fr(xi[0]) - Fr(g[1])) / Fr(v["w"]))
+        if v["gper"]:
+            b %= g[0]
+        out.append(b)
+    return out
+
+
+def vadd(a, b):
+    return [p + q for p, q in zip(a, b)]
 
 
 def spec_bias(c, geom, x, tab, pend):
@@ -341,9 +724,9 @@ def spec_bias(c, geom, x, tab, pend):
     if c["use_grids"]:
         b = bins_exact(c, geom, x)
         if all(0 <= bi < g[0] for bi, g in zip(b, geom)):
-            ctr = [g[1] + v["w"] * (0.5 + bi) for v, g, bi in zip(c["vars"], geom, b)]
+            ctr = [[g[1] + v["w"] * (0.5 + bi)] for v, g, bi in zip(c["vars"], geom, b)]
             return (esum(c, ctr, tab) + esum(c, x, pend),
-                    [fsum(c, ctr, tab, i) + fsum(c, x, pend, i) for i in range(nd)], True)
+                    [vadd(fsum(c, ctr, tab, i), fsum(c, x, pend, i)) for i in range(nd)], True)
     allh = tab + pend
     return esum(c, x, allh), [fsum(c, x, allh, i) for i in range(nd)], False
 
@@ -353,14 +736,56 @@ def oracle(c, impl, traj):
     from the property, or None.  Also returns facts about the scenario for the evidence."""
     st = steps_of(c)
     tab, pend = [], []
-    facts = {"deposits": 0, "projections": 0, "outside_steps": 0, "expansions": 0}
+    facts = {"deposits": 0, "projections": 0, "outside_steps": 0, "expansions": 0, "saves": 0, "wt_outside": 0,
+             "wrapped_steps": 0, "restarts": 0, "rebins": 0, "antipodal_steps": 0, "ebmeta_deposits": 0, "reloads": 0, "rebins_from_grids": 0}
+    restarted = False
+    off_at_restart = []
+    lingering = False      # after a restart without keepHills the hills near the edges stay listed until the next projection
     nd = len(c["vars"])
     geom0 = [(v["nx"], v["lower"], v["upper"]) for v in c["vars"]]
     prev_geom = geom0
     traj = list(traj)
-    for n, ((it, rel, cont, x), im) in enumerate(zip(st, impl)):
-        if im["it"] != it or im["cv"] != x:
-            return ("harness:history", "step %d: imposed (it=%d, x=%s) but the module saw (it=%d, x=%s)" % (n, it, x, im["it"], im["cv"]), n), facts
+    n = -1
+    for e in c["events"]:
+        if e[0] == "save":
+            facts["saves"] += 1
+            if c["use_grids"]:
+                if pend:
+                    facts["projections"] += 1
+                tab += pend
+                pend = []
+            continue
+        if e[0] in ("restart", "rebin", "reload"):
+            facts["restarts"] += 1
+            if e[0] == "reload":
+                facts["reloads"] += 1
+            restarted = True
+            off_at_restart = list(impl[n]["off"]) if n >= 0 else []
+            if c["use_grids"]:
+                if pend:
+                    facts["projections"] += 1
+                tab += pend
+                pend = []
+                lingering = not c["keep"]
+                if e[0] == "rebin":
+                    facts["rebins"] += 1
+                    if not c["keep"]:
+                        facts["rebins_from_grids"] += 1
+                    prev_geom = [tuple(g) for g in e[1]]
+            continue
+        n += 1
+        it, rel, cont, zs = st[n]
+        im = impl[n]
+        x = im["cv"]
+        # the history imposed on the module: exact for the scalar variables
+        bad_hist = im["it"] != it or len(x) != nd
+        for v, z, xv in zip(c["vars"], zs, x):
+            if v["kind"] == 0 and xv != [expected_scalar(v, z)]:
+                bad_hist = True
+            if v["kind"] == 1 and xv != z:
+                bad_hist = True
+        if bad_hist:
+            return ("harness:history", "step %d: imposed (it=%d, z=%s) but the module saw (it=%d, x=%s)" % (n, it, zs, im["it"], x), n), facts
         geom = im["geom"] if c["use_grids"] else geom0
         if c["use_grids"]:
             # the grid may only grow, by whole bins, on the same lattice
@@ -372,22 +797,55 @@ def oracle(c, impl, traj):
                     if kl.denominator != 1 or ku.denominator != 1 or kl < 0 or ku < 0 or g[0] != pg[0] + kl + ku or not v["expand"]:
                         return ("expand:lattice", "step %d: grid of variable changed from %s to %s: not an expansion by whole bins" % (n, pg, g), n), facts
             prev_geom = geom
+            for v, g, xv in zip(c["vars"], geom, x):
+                if v["gper"] and not (g[1] <= xv[0] < g[2]):
+                    facts["wrapped_steps"] += 1
         deposit = (it % c["freq"] == 0) and ((rel > 0 and not cont) or c["stepzero"])
         if deposit:
             facts["deposits"] += 1
             wgt = c["W"]
             pend_before = list(pend)
+            ins = True
+            ebf = 1.0
+            if c.get("eb"):
+                tb = []
+                for v, xv in zip(c["vars"], x):
+                    b = ffloor((Fr(xv[0]) - Fr(v["lower"])) / Fr(v["w"]))
+                    b = b % v["nx"] if v["gper"] else min(max(b, 0), v["nx"] - 1)
+                    tb.append(b)
+                a = 0
+                for v, b in zip(c["vars"], tb):
+                    a = a * v["nx"] + b
+                ebf = 1.0 / target_processed(c)[a]
+                if it < c["eb"]["equil"]:
+                    lam = (c["eb"]["equil"] - it) / float(c["eb"]["equil"])
+                    ebf = lam + (1 - lam) * ebf
+                facts["ebmeta_deposits"] += 1
+                wgt = c["W"] * ebf
             if c["wt"]:
                 vhere, _, ins = spec_bias(c, geom, x, tab, pend)
-                wgt = c["W"] * math.exp(-vhere / (c["bt"] * KB))
-            h = (it, wgt, list(x))
+                wgt = c["W"] * (ebf * math.exp(-vhere / (c["bt"] * KB)))
+                if c["use_grids"] and not ins:
+                    facts["wt_outside"] += 1
+            h = (it, wgt, [list(t) for t in x])
             # the hill actually added at this step (hills trajectory buffer, 14 significant digits)
-            if not traj or traj[0][0] != it or not all(close(a, b, 1e-12) for a, b in zip(traj[0][2], x)):
+            if not traj or traj[0][0] != it or not all(close(a, b, 1e-12) for ta, tb in zip(traj[0][2], x) for a, b in zip(ta, tb)):
                 return ("schedule:missing-hill", "step %d (it=%d, relative %d%s): the schedule prescribes a hill at %s; the next hill "
                         "added by the module is %s" % (n, it, rel, ", repeated step" if cont else "", x, traj[0] if traj else None), n), facts
             seen = [traj.pop(0)]
             if not close(seen[-1][1], wgt):
-                if c["wt"] and c["use_grids"] and not ins:
+                misaligned = any(v["gper"] and not (g[1] <= xv[0] < g[2]) for v, g, xv in zip(c["vars"], geom, x))
+                eb_outside = bool(c.get("eb")) and any(not (0 <= ffloor((Fr(xv[0]) - Fr(v["lower"])) / Fr(v["w"])) < v["nx"])
+                                                        for v, xv in zip(c["vars"], x))
+                if c.get("eb") and eb_outside:
+                    sig = "ebmeta:target-read-out-of-range"
+                elif c.get("eb") and seen[-1][1] != seen[-1][1]:
+                    sig = "ebmeta:nan-weight-in-ramp"
+                elif c.get("eb") and not c["wt"]:
+                    sig = "ebmeta:hill-weight"
+                elif c["wt"] and c["use_grids"] and misaligned:
+                    sig = "periodic:grid-not-aligned-with-wrapping-interval"
+                elif c["wt"] and c["use_grids"] and not ins:
                     sig = "wt:deposit-outside-grid-reads-out-of-range"
                 elif c["wt"] and c["use_grids"] and pend_before and esum(c, x, pend_before) != 0.0:
                     sig = "wt:ignores-unprojected-hills"
@@ -398,11 +856,6 @@ def oracle(c, impl, traj):
                 return (sig, "step %d (it=%d): hill deposited at %s has weight %r, the property prescribes %r "
                         "(hillWeight %r%s)" % (n, it, x, seen[-1][1], wgt, c["W"],
                                                ", times exp(-V/kT) with V the bias at that point" if c["wt"] else ""), n), facts
-            if c["wt"] and c["use_grids"] and not ins:
-                # the implementation read hills_energy->value(curr_bin) with an index outside the grid; whatever
-                # it read is not reproducible: stop following this scenario
-                facts["wt_outside"] = True
-                return None, facts
             pend.append(h)
         elif traj and traj[0][0] == it and (n + 1 == len(st) or st[n + 1][0] != it):
             return ("schedule:extra-hill", "step %d (it=%d, relative %d%s): the module added the hill %s at a step that is not "
@@ -412,20 +865,45 @@ def oracle(c, impl, traj):
                 facts["projections"] += 1
             tab += pend
             pend = []
+            lingering = False
         # which hills must still be listed explicitly
         if c["use_grids"]:
             explicit = (tab + pend) if c["keep"] else pend
         else:
             explicit = tab + pend
-        if not hills_close(im["hills"], explicit):
-            return ("schedule:hill-list", "step %d (it=%d): explicit hills are %s, the schedule prescribes %s" % (
+        listed = im["hills"]
+        if lingering and len(listed) >= len(explicit):
+            # tabulated hills read back from the state (those near the edges) may precede the untabulated ones
+            extra = listed[:len(listed) - len(explicit)]
+            k = 0
+            for h in tab:
+                if k < len(extra) and extra[k][0] == h[0] and centres_same(extra[k][2], h[2], False):
+                    k += 1
+            if k == len(extra):
+                listed = listed[len(extra):]
+        if not hills_close(listed, explicit, not has_restart(c)):
+            return ("restart:hills-lost-on-reading-state" if restarted and len(listed) < len(explicit) else "schedule:hill-list", "step %d (it=%d): explicit hills are %s, the schedule prescribes %s" % (
                 n, it, [(h[0], h[2]) for h in im["hills"]], [(h[0], h[2]) for h in explicit]), n), facts
         eE, eF, ins = spec_bias(c, geom, x, tab, pend)
         if not ins and c["use_grids"]:
             facts["outside_steps"] += 1
-        if not close(im["E"], eE) or not vec_close(im["F"], eF):
+        if any(t != t or abs(t) == float("inf") for f in eF for t in f):
+            # a unit vector exactly opposite to the centre of a hill in range: the gradient of the squared angle is
+            # singular there (colvarvalue::dist2_grad divides by sin = 0); ambiguous for this property, counted
+            facts["antipodal_steps"] += 1
+            if not close(im["E"], eE):
+                return ("energy", "step %d (it=%d, x=%s): energy %r, sum of the deposited hills gives %r" % (n, it, x, im["E"], eE), n), facts
+            continue
+        if not close(im["E"], eE) or not force_close(tangential(c, im["F"], x), tangential(c, eF, x)):
             what = "energy %r force %s, sum of the deposited hills gives energy %r force %s" % (im["E"], im["F"], eE, eF)
-            if c["use_grids"] and not ins:
+            misaligned = c["use_grids"] and any(v["gper"] and not (g[1] <= xv[0] < g[2]) for v, g, xv in zip(c["vars"], geom, x))
+            if misaligned:
+                sig = "periodic:grid-not-aligned-with-wrapping-interval"
+            elif c["use_grids"] and not ins and restarted and e[0] == "step" and \
+                    any(not any(g[0] == h[0] for g in im["off"]) for h in off_at_restart) and e[1] is not None and \
+                    not any(ev[0] == "rebin" for ev in c["events"]):
+                sig = "restart:hills-lost-on-reading-state"
+            elif c["use_grids"] and not ins:
                 eo = esum(c, x, im["off"]) + esum(c, x, pend)
                 dbl = [h for h in pend if any(g[0] == h[0] and g[2] == h[2] for g in im["off"])]
                 if close(im["E"], eo) and dbl and esum(c, x, dbl) != 0.0 and close(im["E"] - esum(c, x, dbl), eE):
@@ -446,15 +924,17 @@ def oracle(c, impl, traj):
 
 
 # ------------------------------------------------------------------------------ findings replayed on every run
-def _var(lower=0.0, nx=8, w=1.0, sigma=1.0, expand=False):
-    return {"w": w, "nx": nx, "periodic": False, "gper": False, "expand": expand, "hlo": False, "hup": False,
-            "lower": lower, "upper": lower + w * nx, "sigma": sigma}
+def _var(lower=0.0, nx=8, w=1.0, sigma=1.0, expand=False, **kw):
+    v = {"kind": 0, "w": w, "nx": nx, "periodic": False, "gper": False, "expand": expand, "hlo": False, "hup": False,
+         "lower": lower, "upper": lower + w * nx, "sigma": sigma}
+    v.update(kw)
+    return v
 
 
 def _cfg(cid, vars_, events, **kw):
     c = {"id": cid, "vars": vars_, "use_grids": True, "sig_mode": False, "hw": 2.0, "W": 1.0, "freq": 1,
-         "keep": False, "wt": False, "bt": 300.0, "stepzero": False, "gfreq_explicit": False, "gfreq": 1, "it0": 0,
-         "events": [(False, list(z)) for z in events]}
+         "keep": False, "wt": False, "bt": 300.0, "stepzero": False, "gfreq_explicit": False, "gfreq": 1, "it0": 0, "eb": None,
+         "events": [("step", False, list(z)) if not isinstance(z, (str, tuple)) else ((z,) if isinstance(z, str) else z) for z in events]}
     c.update(kw)
     if not c["gfreq_explicit"]:
         c["gfreq"] = c["freq"]
@@ -462,58 +942,106 @@ def _cfg(cid, vars_, events, **kw):
 
 
 def witnesses():
-    """fixed scenarios replayed on every run: the witnesses of the _refuted theorems and one per finding"""
+    """fixed scenarios replayed on every run: one per defect found by this check (all repaired by `fix:` commits,
+    see known_findings.txt) and one per feature of the model"""
     return [
-        # C05_outside_grid_refuted (w_cfg, [w_i1], w_i2 preceded by two idle steps): gaussianSigmas = 1 bin, one hill
-        # 1.5 bins inside the lower edge at step 2, then a quarter of a bin outside at step 3
+        # gaussianSigmas = 1 bin, one hill 1.5 bins inside the lower edge at step 2, then a quarter of a bin outside
         _cfg("w_outside", [_var()], [[1.5], [1.5], [1.5], [-0.25]], sig_mode=True, hw=0.0, freq=2),
-        # C05_wt_deposit_outside_grid_refuted, in two dimensions where the out-of-range index (3,-1) has the
-        # address of bin (2,7): the hill at step 2 gets the full hillWeight although it sits on the hill of step 1
+        # well-tempered deposit outside the grid, in two dimensions where the out-of-range index (3,-1) has the
+        # address of bin (2,7), and in one dimension where it is before the array
         _cfg("w_wt_outside", [_var(), _var()], [[3.5, 0.5], [3.5, 0.5], [3.5, -0.25]], wt=True),
-        # the u_cfg witness itself (one variable; what is read at data[-1] is whatever precedes the array)
         _cfg("w_wt_outside_1d", [_var()], [[0.5], [0.5], [-0.25]], wt=True),
-        # well-tempered, gridsUpdateFrequency 2 > newHillFrequency 1: at step 2 the hill of step 1 is not yet
-        # on the grid and is ignored by the well-tempered factor
+        # well-tempered, gridsUpdateFrequency 2 > newHillFrequency 1: at step 2 the hill of step 1 is not yet on the grid
         _cfg("w_wt_unprojected", [_var()], [[3.5], [3.5], [3.5]], wt=True, gfreq_explicit=True, gfreq=2),
         # a hill deposited outside the grid and not yet projected is in hills_off_grid and after new_hills_begin
         _cfg("w_double_count", [_var()], [[3.5], [-0.25]], gfreq_explicit=True, gfreq=2),
-        # expandBoundaries with gaussianSigmas (buffer of one bin): the bin added at step 2 never receives the hill of step 1
+        # expandBoundaries with gaussianSigmas: the bin added at step 2 must receive the hill of step 1
         _cfg("w_expand", [_var(expand=True)], [[1.5], [1.5], [0.5], [-0.5]], sig_mode=True, hw=0.0),
+        # periodic variable wrapped to [-4,4) with a periodic grid on [0,8)
+        _cfg("w_periodic_misaligned", [_var(periodic=True, gper=True, P=8.0, c=0.0)], [[-1.5], [-1.5], [-1.5], [2.5], [-1.5]]),
+        # the state is written between two projections
+        _cfg("w_save", [_var()], [[3.5], [3.5], "save", [3.25], [-0.25]], gfreq_explicit=True, gfreq=4),
+        # restart: without grids every hill, with grids the hills near the edges, must survive (energy off the grid)
+        _cfg("w_restart_nogrid", [_var()], [[0.5], [0.5], [0.5], [-0.25], "restart", [-0.25], [0.5]], use_grids=False),
+        _cfg("w_restart_grid", [_var()], [[0.5], [0.5], [0.5], [-0.25], "restart", [-0.25], [0.5]]),
+        _cfg("w_restart_twice", [_var()], [[0.5], [0.5], "restart", [0.5], [-0.25], "restart", [-0.25], [0.5]], keep=True),
+        # the state read back by the same instance (pre-existing hills pruned), with and without grids
+        _cfg("w_reload_model", [_var()], [[0.5], [0.5], [0.5], [-0.25], "reload", ("step", True, [-0.25]), [0.5], [-0.5]]),
+        _cfg("w_reload_model_nogrid", [_var()], [[0.5], [0.5], [-0.25], "reload", ("step", True, [-0.25]), [0.5]], use_grids=False),
+        # rebinGrids without keepHills (map_grid) onto the expanded grid extended by whole bins: expandBoundaries, hillWidth 2:
+        # the grid [0,8) becomes [-4,11) at the first step; new boundaries [-6,13)
+        _cfg("w_rebin_from_grids", [_var(expand=True)], [[3.5], [3.5], [4.5], ("rebin", [(19, -6.0, 13.0)]), [4.5], [-5.5], [12.25]]),
+        # restart with rebinGrids from the kept hills onto a shifted, larger grid
+        _cfg("w_rebin", [_var()], [[0.5], [1.5], [3.25], ("rebin", [(12, -2.5, 9.5)]), [3.25], [-0.75], [9.75]], keep=True),
+        # ebMeta: ramp during 3 steps, hills inside, beyond both boundaries (closest edge bin), with well-tempered
+        _cfg("w_ebmeta", [_var()], [[3.5], [3.5], [0.5], [7.5], [3.5], [-0.25], [8.5], [2.5]],
+             eb={"raw": [1.0, 2.0, 4.0, 8.0, 8.0, 4.0, 2.0, 0.0], "equil": 3}),
+        _cfg("w_ebmeta_wt", [_var()], [[3.5], [3.5], [3.5], [-0.25], [3.25]], wt=True,
+             eb={"raw": [1.0, 2.0, 4.0, 8.0, 8.0, 4.0, 2.0, 1.0], "equil": 0}),
+        # ebMeta with the default ebMetaEquilSteps 0 and a hill at step 0 (stepZeroData)
+        _cfg("w_ebmeta_step0", [_var()], [[3.5], [3.5], [2.5]], stepzero=True,
+             eb={"raw": [1.0, 2.0, 4.0, 8.0, 8.0, 4.0, 2.0, 1.0], "equil": 0}),
+        # vector variables without grids
+        _cfg("w_vec3", [_var(kind=1)], [[[1.0, 0.0, 0.5]], [[1.0, 0.25, 0.5]], [[0.5, 0.25, 0.5]], [[0.5, 0.5, 0.0]]], use_grids=False, wt=True),
+        _cfg("w_quat", [_var(kind=3)], [[[1.0, 0.0, 0.0, 0.0, 1.0, 0.0, 0.0, 0.0, 1.0, -1.0, -1.0, -1.0]],
+                                        [[1.0, 0.125, 0.0, 0.0, 1.0, 0.0, 0.0, 0.0, 1.0, -1.0, -1.0, -1.0]],
+                                        [[0.0, 1.0, 0.0, -1.0, 0.0, 0.0, 0.0, 0.0, 1.0, 1.0, -1.0, -1.0]],
+                                        [[0.0, 1.0, 0.25, -1.0, 0.0, 0.0, 0.0, 0.0, 1.0, 1.0, -1.0, -1.0]]], use_grids=False, wt=True),
+        _cfg("w_unit3", [_var(kind=2)], [[[1.0, 0.0, 0.5]], [[1.0, 0.25, 0.5]], [[0.5, 0.25, 0.5]], [[0.5, 0.5, 0.0]]], use_grids=False),
     ]
 
 
 def run_scenarios(run, exe, model, cs, d, dump=True):
-    """run implementation and model on the scenarios; yields (c, impl_steps, model_steps, scenario text)"""
-    mlines = [model_case(c, dump) for c in cs]
-    rc, mout, e = V.run_lines(model, mlines, timeout=900)
+    """run implementation and model on the scenarios; returns (c, impl_steps, model_steps, scenario text, ...)"""
     res = []
+    mlines = []
     for k, c in enumerate(cs):
         sc = os.path.join(d, "s%s.scn" % c["id"])
         txt = scenario_text(c, dump)
         open(sc, "w").write(txt)
+        for fn, content in scenario_files(c).items():
+            open(os.path.join(d, fn), "w").write(content)
         rcv, o, ev = V.sh([exe, sc], cwd=d, timeout=120)
         os.remove(sc)
-        nd = len(c["vars"])
         try:
-            impl = parse_impl(o, nd) if "CONFIG err=ok" in o else None
+            impl = parse_impl(c, o) if "CONFIG err=ok" in o else None
         except (ValueError, IndexError, KeyError):
             impl = []
-        mo = parse_model(mout[k], nd) if k < len(mout) else None
-        res.append((c, impl, mo, txt, rcv, o, parse_traj(o, nd)))
+        # the model receives the values the module saw (exact hex)
+        nst = len(step_events(c))
+        if impl and len(impl) == nst and all(len(s["cv"]) == len(c["vars"]) for s in impl):
+            xs = [s["cv"] for s in impl]
+        else:
+            xs = [[[expected_scalar(v, z)] if v["kind"] == 0 else list(z)[:NCOMP[v["kind"]]] for v, z in zip(c["vars"], st[3])] for st in steps_of(c)]
+        mlines.append(model_case(c, xs, dump))
+        try:
+            traj = parse_traj(c, o)
+        except (ValueError, IndexError):
+            traj = None
+        c["_last_traj"] = last_traj_segment(c, o) if traj is not None else None
+        res.append([c, impl, None, txt, rcv, o, traj, mlines[-1]])
+    rc, mout, e = V.run_lines(model, mlines, timeout=900)
+    for k, rec in enumerate(res):
+        try:
+            rec[2] = parse_model(rec[0], mout[k]) if k < len(mout) else None
+        except (ValueError, IndexError, KeyError):
+            rec[2] = None
     return res
 
 
-def check_one(run, c, impl, mo, txt, rcv, o, traj):
+def check_one(run, c, impl, mo, txt, rcv, o, traj, mline):
     nd = len(c["vars"])
     key = "s%s" % c["id"]
-    replay_d = {"kind": "scenario", "scenario": txt, "model_case": model_case(c), "config": {k: v for k, v in c.items() if k != "events"}}
+    replay_d = {"kind": "scenario", "scenario": txt, "model_case": mline, "files": scenario_files(c),
+                "config": {k: v for k, v in c.items() if k != "events" and not k.startswith("_")}}
     if impl is None:
         run.count(key, False)
         run.mismatch("config", {"scenario": txt}, o[-400:], "accepted")
         return
-    if rcv != 0 or traj is None or len(impl) != len(c["events"]) or any("E" not in s for s in impl):
+    nst = len(step_events(c))
+    if rcv != 0 or traj is None or len(impl) != nst or any("E" not in s or "F" not in s for s in impl):
         run.count(key, False)
-        run.violation("crash", "the module died or lost the bias (rc=%d) after %d of %d steps" % (rcv, len(impl), len(c["events"])), replay_d)
+        run.violation("crash", "the module died or lost the bias (rc=%d) after %d of %d steps" % (rcv, len(impl), nst), replay_d)
         return
     bad, facts = oracle(c, impl, traj)
     nontriv = facts["deposits"] >= 3 and (facts["projections"] >= 1 or not c["use_grids"]) and \
@@ -526,8 +1054,11 @@ def check_one(run, c, impl, mo, txt, rcv, o, traj):
             run.dist(kk)
     run.dist("periodic_vars", sum(1 for v in c["vars"] if v["periodic"]))
     run.dist("expanding_vars", sum(1 for v in c["vars"] if v["expand"]))
+    run.dist("vector_vars", sum(1 for v in c["vars"] if v["kind"] == 1))
+    run.dist("unit_vector_vars", sum(1 for v in c["vars"] if v["kind"] == 2))
+    run.dist("quaternion_vars", sum(1 for v in c["vars"] if v["kind"] == 3))
     run.dist("steps", len(impl))
-    for kk in ("deposits", "projections", "outside_steps", "expansions"):
+    for kk in ("deposits", "projections", "outside_steps", "expansions", "saves", "wt_outside", "wrapped_steps", "restarts", "rebins", "antipodal_steps", "ebmeta_deposits", "reloads", "rebins_from_grids"):
         run.dist(kk, facts[kk])
     if bad:
         sig, text, n = bad
@@ -535,18 +1066,48 @@ def check_one(run, c, impl, mo, txt, rcv, o, traj):
         run.violation(sig, text, dict(replay_d, step=n))
     # tie
     if mo is None or len(mo) != len(impl):
-        run.mismatch("model-output", {"model_case": model_case(c)}, len(impl), None if mo is None else len(mo))
+        run.mismatch("model-output", {"model_case": mline}, len(impl), None if mo is None else len(mo))
         return
+    if c.get("eb"):
+        tp = target_processed(c)
+        dumps = c.get("_target_dump") or []
+        if not dumps or any(not vec_close(t, tp) for t in dumps):
+            run.violation("ebmeta:target-normalisation", "target distribution as used by ebMeta %s, expected (raw values raised to 1e-6 "
+                          "of the maximum, normalised, times exp(entropy)) %s" % (dumps[:1], tp), replay_d)
+    mt, it_ = c.get("_model_traj"), c.get("_last_traj")
+    if mt is not None and it_ is not None:
+        if len(mt) != len(it_) or any(a[0] != b[0] or not close(a[1], b[1], 1e-9) or not centres_same(a[2], b[2], False) for a, b in zip(mt, it_)):
+            run.mismatch("hills_trajectory", dict(replay_d), [(h[0], h[1]) for h in it_], [(h[0], h[1]) for h in mt])
     for n, (im, ms) in enumerate(zip(impl, mo)):
-        if ms["ub"]:
-            run.dist("model:out-of-range-read")
-            break
         diff = compare_step(c, im, ms)
         if diff:
-            run.mismatch(diff, dict(replay_d, step=n),
-                         {k: im.get(k) for k in ("E", "F", "nhills", "nnew", "noff", "hills", "off", "geom")},
-                         {k: ms.get(k) for k in ("E", "F", "nhills", "nnew", "noff", "hills", "off", "geom")})
+            keys = ("E", "F", "nhills", "nnew", "noff", "noffnew", "hills", "off", "geom")
+            run.mismatch(diff, dict(replay_d, step=n), {k: im.get(k) for k in keys}, {k: ms.get(k) for k in keys})
             break
+
+
+def reload_witness(run, exe, d):
+    """a state read by an instance that already holds hills (outside the model): the energy at the same position must be
+    the same before and after, with and without grids"""
+    for name, use_grids in (("nogrid", False), ("grid", True)):
+        c = _cfg("w_reload_" + name, [_var()], [[0.5], [0.5], [0.5], [-0.25]], use_grids=use_grids)
+        L = scenario_text(c, False).split("\n")
+        L = [l for l in L if l and l != "metatraj m"]
+        L += ["save text c05rl.state", "load c05rl.state", "pos 1 0 0 %s" % V.hexf(-0.25), "runboundary", "step", "metadump m 0"]
+        txt = "\n".join(L) + "\n"
+        sc = os.path.join(d, "reload_%s.scn" % name)
+        open(sc, "w").write(txt)
+        rcv, o, ev = V.sh([exe, sc], cwd=d, timeout=120)
+        os.remove(sc)
+        en = [fh(l.split()[1]) for l in o.split("\n") if l.startswith("MENERGY")]
+        ok = rcv == 0 and len(en) == 5 and "LOAD err=ok" in o
+        run.count("w_reload_" + name, ok)
+        if not ok:
+            run.violation("crash", "reading a state into an instance that holds hills failed (rc=%d)" % rcv, {"kind": "scenario", "scenario": txt})
+        elif not close(en[4], en[3]):
+            run.violation("restart:hills-lost-on-reading-state",
+                          "state written and read back by the same instance (%s grids): energy at -0.25 was %r before and is %r after"
+                          % ("with" if use_grids else "without", en[3], en[4]), {"kind": "scenario", "scenario": txt})
 
 
 def setup():
@@ -563,24 +1124,28 @@ def corpus_cases():
             if l and not l.startswith("#"):
                 out.append(json.loads(l))
     for c in out:
-        c["events"] = [(bool(b), z) for b, z in c["events"]]
+        c["events"] = [tuple(e) if e[0] != "rebin" else ("rebin", [tuple(g) for g in e[1]]) for e in c["events"]]
     return out
 
 
 def check(run):
     r = V.rng("C05")
     quick = run.tier == "quick"
-    run.cov["rule"] = ("scenarios: 1-3 exact distanceZ variables (periodic with aligned or partial grids, non-periodic, expandBoundaries, "
-                       "hard boundaries), hillWidth/gaussianSigmas, newHillFrequency 1-4, gridsUpdateFrequency default or explicit, "
-                       "keepHills, wellTempered, stepZeroData, useGrids off, start step 0-9, run boundaries, 8-30 steps with values "
-                       "on bin edges / inside / outside the grid. distinct = scenario; non-trivial = >=3 hills deposited, >=1 projection "
-                       "(with grids) and >=1 step outside the grid (where the grid does not span a period)")
+    run.cov["rule"] = ("scenarios: 1-3 variables: exact distanceZ (non-periodic; periodic with a grid spanning the period, aligned with the "
+                       "wrapping interval or not; periodic with a grid on part of the period; expandBoundaries; hard boundaries) with grids, "
+                       "distanceVec / distanceDir without grids; hillWidth/gaussianSigmas, newHillFrequency 1-4, gridsUpdateFrequency default "
+                       "or explicit, keepHills, wellTempered, stepZeroData, start step 0-9, run boundaries, state saves, restarts (state written, "
+                       "fresh instance, state read; with keepHills also rebinGrids onto shifted/resized boundaries), 8-30 steps with values on "
+                       "bin edges / inside / outside the grid. distinct = scenario; non-trivial = >=3 hills deposited, >=1 projection (with "
+                       "grids) and >=1 step outside the grid (where the grid does not span a period)")
     run.assumptions += [
         "theorems are about the R instance of the model; the tie runs the float instance; every discrete decision (schedule, bins, "
         "off-grid margin, kernel cut-off, expansion) is taken on dyadic inputs where it is exact, energies/forces/weights are compared "
         "to 1e-9 relative",
-        "non-scalar variables (useGrids off), multiple replicas and ebMeta are outside the model",
-        "once the model records an out-of-range grid read (well-tempered deposit outside the grid) the rest of that scenario is not compared",
+        "multiple replicas, ebMeta, quaternion variables, rebinning from the grids of the state (without keepHills) and "
+        "loading a state into an instance that already holds hills are outside the model (the last one is replayed by a witness)",
+        "values beyond a boundary declared hard, and values beyond a grid that covers part of the range of a periodic variable, are "
+        "outside the premises of the theorems (the latter are generated and tied; the former are not generated)",
     ]
     st = V.standard_start(run, PROP, EXTRACT, DRIVER, PROGS)
     if st is None:
@@ -590,14 +1155,15 @@ def check(run):
     d = V.scratch("C05")
     cs = corpus_cases()
     cs += witnesses()
-    n = 160 if quick else 4000
+    n = 170 if quick else 4000
     cs += [gen_scn(r, k) for k in range(n)]
     nsample = 0
-    for (c, impl, mo, txt, rcv, o, traj) in run_scenarios(run, exe, model, cs, d):
-        check_one(run, c, impl, mo, txt, rcv, o, traj)
+    for (c, impl, mo, txt, rcv, o, traj, mline) in run_scenarios(run, exe, model, cs, d):
+        check_one(run, c, impl, mo, txt, rcv, o, traj, mline)
         if nsample < 2 and impl:
             nsample += 1
             run.sample({"scenario": txt.split("\n")[:45], "last_step": {k: impl[-1].get(k) for k in ("it", "E", "F", "nhills", "nnew", "noff", "geom")}})
+    reload_witness(run, exe, d)
     run.cov["correspondence"].update({"scenarios": len(cs)})
 
 
@@ -610,9 +1176,11 @@ def replay(path):
         model = V.extract_model("C05", EXTRACT, DRIVER, ["ocaml/fops.ml"])
         d = V.scratch("C05r")
         open(os.path.join(d, "r.scn"), "w").write(rp["scenario"])
+        for fn, content in rp.get("files", {}).items():
+            open(os.path.join(d, fn), "w").write(content)
         print("---- implementation")
         print(V.sh([exe, "r.scn"], cwd=d)[1])
         if "model_case" in rp:
             print("---- model")
-            print("\n".join(V.run_lines(model, [rp["model_case"]])[1][0].split(" | ")))
+            print("\n".join(V.run_lines(model, [rp["model_case"]])[1][0].replace(" || ", " | ").split(" | ")))
     return 0
